@@ -1,7 +1,7 @@
 (** C12 — malformed AML is rejected with an error, never a crash, hang or stray pointer.
     Statements only; every proof is [exact <lemma>] (Aml/LexProofs.v). *)
 From Coq Require Import NArith List.
-From FF Require Import Lib.Word Gen.Consts_device_acpi_aml Aml.Stream Aml.Lex Aml.LexProofs Aml.Tree Aml.TreeSpec Aml.Parser Aml.ParserProofs Aml.ParserProofsTop Aml.ParserTotalFirst Aml.ParserTotalConn Aml.ParserTotalTop Aml.ParserTotalNonNamed Aml.ParserTotalCalls Aml.ParserTotalReloc Aml.ParserTotalMerge Aml.ParserTotalResolve Aml.ParserTotalBase Aml.ParserTotalLex Aml.ParserTotalTree Aml.ParserTotalDefer Aml.ParserTotalDeferW Aml.ParserTotalDeferV Aml.ParserTotalTyped Aml.ParserTotalShape Aml.ParserTotalChain Aml.ParserTotalConn2 Aml.ParserTotalPass2 Aml.ParserTotalBenign Aml.ParserTotalFirst2 Aml.ParserTotalNameLex Aml.ParserTotalGoodPath Aml.ParserTotalPass1 Aml.ParserTotalHandle Aml.ParserTotalLoad Aml.ParserTotalMeth.
+From FF Require Import Lib.Word Gen.Consts_device_acpi_aml Aml.Stream Aml.Lex Aml.LexProofs Aml.Tree Aml.TreeSpec Aml.Parser Aml.ParserProofs Aml.ParserProofsTop Aml.ParserTotalFirst Aml.ParserTotalConn Aml.ParserTotalTop Aml.ParserTotalNonNamed Aml.ParserTotalCalls Aml.ParserTotalReloc Aml.ParserTotalMerge Aml.ParserTotalResolve Aml.ParserTotalBase Aml.ParserTotalLex Aml.ParserTotalTree Aml.ParserTotalDefer Aml.ParserTotalDeferW Aml.ParserTotalDeferV Aml.ParserTotalTyped Aml.ParserTotalShape Aml.ParserTotalChain Aml.ParserTotalConn2 Aml.ParserTotalPass2 Aml.ParserTotalBenign Aml.ParserTotalFirst2 Aml.ParserTotalNameLex Aml.ParserTotalGoodPath Aml.ParserTotalPass1 Aml.ParserTotalHandle Aml.ParserTotalLoad Aml.ParserTotalMeth Aml.ParserTotalFuel.
 Import ListNotations.
 Local Open Scope N_scope.
 
@@ -393,12 +393,13 @@ Print Assumptions C12_parse_total_partial_nopanic_resolve_loop.
     stack.  From ANY state in which the pool satisfies [R] with valid opcode-table indexes, the reader and the whole-parser
     invariant [Inv] (table link, slices inside) hold, the scope stack holds live objects, the root is live, the pool has room
     for 8 objects per byte of the table, and every Method object is typed ([TM NoX]: its first two children exist, neither
-    has a deferred or field-list row, the second carries a number): NEVER a panic - no empty scope stack, no nil
+    has a deferred or field-list row, the first is a CHILDLESS pOpIntNamePath object with the name-path row, the second a
+    pOpBytePrefix object with its row that carries a number): NEVER a panic - no empty scope stack, no nil
     dereference after Find or ArgAt, no failed `.([]byte)` / `.(uint64)` assertion, every append / detach legal - and
     [R], valid indexes, the reader invariant, live scopes and (after success) the typing of all Methods, including those the
     block declares, hold again; the pool grows by at most 8 objects per table byte + 3.  Fuel exhaustion is not excluded.
-    Not covered here: the walk of parseDeferredBlocks over all objects (next theorem), and the derivation of [TM NoX] from
-    the earlier passes. *)
+    Not covered here: the walk of parseDeferredBlocks over all objects (next theorem); [TM NoX] follows from the earlier passes by
+    TM3_TM (end-to-end theorems below). *)
 Theorem C12_parse_total_partial_nopanic_deferred_block :
   forall (tbls : list (list N)) (fuel parseFuel : nat) (obj : N) (oo : Obj) (op fl af : N) (s : pstate) (g : ghost),
     R (p_tree s) g ->
@@ -878,3 +879,97 @@ Theorem C12_parse_total_load_never_panics :
   forall payloads : list (list N), SEQ ds_tree [] 1 payloads -> fst (fst (load payloads)) <> 2.
 Proof. exact load_never_panics. Qed.
 Print Assumptions C12_parse_total_load_never_panics.
+
+(** NEVER A HANG, pass 2: connectNamedObjArgs run from any live object of any state with [R], valid indexes and slices inside, with
+    at least TWICE AS MUCH FUEL AS THE POOL HAS SLOTS, RETURNS - neither Panic nor OutOfFuel - and re-establishes the three.  The
+    measure: the walk from an object needs at most twice the size of its subtree; the loop over the first children of an object,
+    the last ones done, twice the size of the subtrees still to visit plus the number of the children done plus one (that bounds
+    the iterations of attachSiblingsAsArgs too: it stops when the siblings are used up).  The specifications of
+    ParserTotalConn2.v now say "out of fuel only if the fuel is below the measure"; the size of a subtree is the length of a
+    duplicate-free list of live descendants, hence at most the pool size (ParserTotalFuel.v).  ParseAML's own fuel for the pass,
+    parse_fuel (table length + slots of the pool it started with) = 64 + 8 * that, is at least twice the pool size as long as the first
+    pass has created at most 4 objects per byte + 2 (C12_parse_total_fuel_enough) - the bound the first-pass theorems give. *)
+Theorem C12_parse_total_partial_fuel_connectNamedObjArgs :
+  forall (fuel : nat) (x : N) (s : pstate) (g : ghost),
+    R (p_tree s) g ->
+    (forall i o, TreeSpec.get (p_tree s) i = Some o -> o_opcode o <> opFreed -> opInfo (o_infoIndex o) <> None) ->
+    pool_ok (p_tables s) (p_tree s) -> glive g x ->
+    (2 * length (t_pool (p_tree s)) <= fuel)%nat ->
+    match connectNamedObjArgs fuel x s with
+    | Ok (_, s') => exists g', R (p_tree s') g' /\
+        (forall i o, TreeSpec.get (p_tree s') i = Some o -> o_opcode o <> opFreed -> opInfo (o_infoIndex o) <> None) /\
+        pool_ok (p_tables s') (p_tree s')
+    | Panic => False
+    | OutOfFuel => False
+    end.
+Proof. exact connectNamedObjArgs_returns. Qed.
+Print Assumptions C12_parse_total_partial_fuel_connectNamedObjArgs.
+
+Theorem C12_parse_total_fuel_enough :
+  forall len pool0 pool : nat, (pool <= pool0 + 4 * len + 2)%nat -> (2 * pool <= parse_fuel (len + pool0))%nat.
+Proof. exact parse_fuel_enough. Qed.
+Print Assumptions C12_parse_total_fuel_enough.
+
+(** NEVER A HANG, passes 5 and 6: resolveMethodCalls and connectNonNamedObjArgs from the root - each alone, and chained as ParseAML
+    chains them ([parse_tail2]) - with at least twice as much fuel as the pool has slots RETURN (neither Panic nor OutOfFuel) from any
+    state with [R], valid indexes, slices inside, the []byte typing and a live parentless root.  Same measure as for pass 2, plus
+    the siblings that FOLLOW the object (attachSiblingsAsArgs with useParent may take them: PO2 / PL2 of ParserTotalConn.v); to
+    carry the sizes of the subtrees still to visit across a call, the specifications of ParserTotalNonNamed.v / ParserTotalCalls.v
+    now also say which child lists a walk leaves alone (everything outside the subtree and its parent) and that the lists of
+    following siblings only shrink.  The pool does not grow in these passes, so ParseAML's fuel (C12_parse_total_fuel_enough)
+    suffices.  NOT covered: the resolve loop and parseDeferredBlocks (fuel of passes 3 and 4), hence no combined "ParseAML returns". *)
+Theorem C12_parse_total_partial_fuel_resolveMethodCalls :
+  forall (fuel : nat) (s : pstate) (g : ghost),
+    R (p_tree s) g ->
+    (forall i o, TreeSpec.get (p_tree s) i = Some o -> o_opcode o <> opFreed -> opInfo (o_infoIndex o) <> None) ->
+    pool_ok (p_tables s) (p_tree s) ->
+    (forall i o, TreeSpec.get (p_tree s) i = Some o -> o_opcode o <> opFreed -> o_opcode o = aml_pOpIntNamePathOrMethodCall ->
+                 exists tbl sl, o_value o = Some (VBytes tbl sl)) ->
+    glive g 0 -> groot g 0 -> (2 * length (t_pool (p_tree s)) <= fuel)%nat ->
+    match resolveMethodCalls fuel 0 s with
+    | Ok (_, s') => exists g', R (p_tree s') g' /\
+        (forall i o, TreeSpec.get (p_tree s') i = Some o -> o_opcode o <> opFreed -> opInfo (o_infoIndex o) <> None) /\
+        pool_ok (p_tables s') (p_tree s') /\
+        (forall i o, TreeSpec.get (p_tree s') i = Some o -> o_opcode o <> opFreed -> o_opcode o = aml_pOpIntNamePathOrMethodCall ->
+                     exists tbl sl, o_value o = Some (VBytes tbl sl)) /\
+        glive g' 0 /\ groot g' 0 /\ length (t_pool (p_tree s')) = length (t_pool (p_tree s))
+    | Panic => False
+    | OutOfFuel => False
+    end.
+Proof. exact resolveMethodCalls_returns. Qed.
+Print Assumptions C12_parse_total_partial_fuel_resolveMethodCalls.
+
+Theorem C12_parse_total_partial_fuel_connectNonNamedObjArgs :
+  forall (fuel : nat) (s : pstate) (g : ghost),
+    R (p_tree s) g ->
+    (forall i o, TreeSpec.get (p_tree s) i = Some o -> o_opcode o <> opFreed -> opInfo (o_infoIndex o) <> None) ->
+    pool_ok (p_tables s) (p_tree s) ->
+    glive g 0 -> groot g 0 -> (2 * length (t_pool (p_tree s)) <= fuel)%nat ->
+    match connectNonNamedObjArgs fuel 0 s with
+    | Ok (_, s') => exists g', R (p_tree s') g' /\
+        (forall i o, TreeSpec.get (p_tree s') i = Some o -> o_opcode o <> opFreed -> opInfo (o_infoIndex o) <> None) /\
+        pool_ok (p_tables s') (p_tree s')
+    | Panic => False
+    | OutOfFuel => False
+    end.
+Proof. exact connectNonNamedObjArgs_returns. Qed.
+Print Assumptions C12_parse_total_partial_fuel_connectNonNamedObjArgs.
+
+Theorem C12_parse_total_partial_fuel_tail2 :
+  forall (f5 f6 : nat) (s : pstate) (g : ghost),
+    R (p_tree s) g ->
+    (forall i o, TreeSpec.get (p_tree s) i = Some o -> o_opcode o <> opFreed -> opInfo (o_infoIndex o) <> None) ->
+    pool_ok (p_tables s) (p_tree s) ->
+    (forall i o, TreeSpec.get (p_tree s) i = Some o -> o_opcode o <> opFreed -> o_opcode o = aml_pOpIntNamePathOrMethodCall ->
+                 exists tbl sl, o_value o = Some (VBytes tbl sl)) ->
+    glive g 0 -> groot g 0 ->
+    (2 * length (t_pool (p_tree s)) <= f5)%nat -> (2 * length (t_pool (p_tree s)) <= f6)%nat ->
+    match parse_tail2 f5 f6 s with
+    | Ok (_, s') => exists g', R (p_tree s') g' /\
+        (forall i o, TreeSpec.get (p_tree s') i = Some o -> o_opcode o <> opFreed -> opInfo (o_infoIndex o) <> None) /\
+        pool_ok (p_tables s') (p_tree s')
+    | Panic => False
+    | OutOfFuel => False
+    end.
+Proof. exact tail2_returns. Qed.
+Print Assumptions C12_parse_total_partial_fuel_tail2.
